@@ -50,8 +50,26 @@ def build(spec, mode, top=True):
         items = [build(s, mode, False) for s in spec]
         return LazyList(iter(items)) if lazy else items
     if isinstance(spec, dict):
+        if "e" in spec:                     # an irrational number, written as a sympy expression
+            return sympy.sympify(spec["e"])
         return sympy.Rational(spec["q"][0], spec["q"][1])
     return spec
+
+
+def build_args(args, modes):
+    """One Python value per argument.  A second mode "=X" makes the second argument THE SAME OBJECT as the
+    first (built in representation X); "~X" makes it a different top-level container holding the same item
+    objects (so lazy sublists are shared between the two operands)."""
+    if len(args) == 2 and modes[1][0] in "=~":
+        from vyxal.LazyList import LazyList
+        m = modes[1][-1]
+        if modes[1][0] == "=":
+            a = build(args[0], m)
+            return [a, a]
+        items = [build(x, m, False) for x in args[0]]
+        lazy = m in "LT"
+        return [LazyList(iter(list(items))) if lazy else list(items), LazyList(iter(list(items))) if lazy else list(items)]
+    return [build(a, m) for a, m in zip(args, modes)]
 
 
 class Huge(Exception):
@@ -108,6 +126,7 @@ def is_list_spec(s):
 
 
 def tag_of(spec, mode, top=True):
+    mode = mode[-1]
     if isinstance(spec, list):
         lazy = mode == "L" or (mode == "T" and top) or (mode == "I" and not top)
         return "TLazy" if lazy else "TList"
@@ -175,7 +194,7 @@ def own_call(fn, args, modes, cache):
         r = cache[k]
     else:
         try:
-            r = ("ok", canon(fn(*[build(a, m) for a, m in zip(args, modes)], ctx=Context())))
+            r = ("ok", canon(fn(*build_args(args, modes), ctx=Context())))
         except V.Timeout:
             raise
         except Huge:
@@ -196,7 +215,7 @@ def tags_of(args, modes):
 
 def child_modes(modes):
     # below the top: L stays lazy, T becomes eager, I becomes lazy, E stays eager
-    return [{"L": "L", "T": "E", "I": "L", "E": "E"}[m] for m in modes]
+    return [{"L": "L", "T": "E", "I": "L", "E": "E"}[m[-1]] for m in modes]
 
 
 def children(args, modes):
@@ -229,7 +248,7 @@ def spec_apply(fn, args, modes, cache, ex):
 def impl_apply(fn, args, modes):
     from vyxal.context import Context
     try:
-        return ("ok", canon(fn(*[build(a, m) for a, m in zip(args, modes)], ctx=Context())))
+        return ("ok", canon(fn(*build_args(args, modes), ctx=Context())))
     except V.Timeout:
         raise
     except Huge:
@@ -419,6 +438,42 @@ def gen_inputs(env):
 
 
 # ----------------------------------------------------------------------------
+# oracle-only cases: operands that are / share the same (lazy) object, irrational numbers
+# ----------------------------------------------------------------------------
+IRRATIONALS = [{"e": "sqrt(2)"}, {"e": "pi"}, {"e": "(1+sqrt(5))/2"}, {"e": "-sqrt(3)/2"}, {"e": "sqrt(2)*sqrt(3)"}, {"e": "2**(1/3)"}]
+
+
+def gen_extra(env):
+    """-> (monadic, dyadic) cases that go to the oracle only (the Coq models have neither object identity
+    nor irrational numbers): (1) both operands of a dyad are the same list object, or different lists that
+    hold the same item objects -- every representation; two iterators then walk one partially generated
+    lazy list; (2) irrational numbers as scalars and as items, beside integers, rationals and strings."""
+    rng = env.rng
+    mon, dy = [], []
+    shared = [[3, 1, 4, 1, 5, 9], [[1, 2], [3, [4, 5]], 6], [], [7], [[1, 2, 3], [4, 5, 6]], ["ab", 2, {"q": [1, 2]}], [0, [0, [0, 1]]]]
+    for _ in range(env.budget(3, 12)):
+        shared.append(Profile(rng).list(rng, rng.randint(1, 3), 4))
+    for lst in shared:
+        for m in ("=L", "=E", "=T", "=I", "~L", "~E"):
+            dy.append(("same-object" if m[0] == "=" else "shared-items", [lst, lst], [m[-1], m]))
+    irr_lists = [[1, IRRATIONALS[0], 2], [[IRRATIONALS[1], 3], [2]], [IRRATIONALS[2], {"q": [1, 2]}, "a"], list(IRRATIONALS[:4]),
+                 [[1, [IRRATIONALS[0], 2]], 2], [IRRATIONALS[3], 0, -1], [IRRATIONALS[4], IRRATIONALS[5], 4]]
+    for lst in irr_lists:
+        for m in ("E", "L"):
+            mon.append(("irrational-items", [lst], [m]))
+        for sc in (2, 0, {"q": [1, 2]}, IRRATIONALS[0], "a"):
+            dy.append(("irrational-list-scalar", [lst, sc], ["L", "E"]))
+            dy.append(("irrational-scalar-list", [sc, lst], ["E", "E"]))
+    for x in IRRATIONALS:
+        for lst in ([1, 2, 3], [[1, 2], {"q": [3, 2]}, 0], ["a", 1], []):
+            dy.append(("list-irrational-scalar", [lst, x], ["E", "E"]))
+            dy.append(("irrational-scalar-list", [x, lst], ["E", "L"]))
+    for a, b in zip(irr_lists, reversed(irr_lists)):
+        dy.append(("irrational-list-list", [a, b], ["E", "L"]))
+    return mon, dy
+
+
+# ----------------------------------------------------------------------------
 # which extreme values an element can take at all (some scalar overloads build a
 # string / a range / a factorial as long as the number: those never finish)
 # ----------------------------------------------------------------------------
@@ -526,6 +581,7 @@ def oracle(env, gd, mon, dy):
     for x in gd.get("doc_exempt", []):
         exempt[x["key"]].append(x["tags"])
     items, meta = [], []
+    xmon, xdy = gen_extra(env)
     for key in gd["curated"]:
         r = by[key]
         for shape, args, modes in (mon if r["arity"] == 1 else dy):
@@ -534,6 +590,12 @@ def oracle(env, gd, mon, dy):
                 continue
             items.append((r["fn"], args, modes, exempt.get(key, [])))
             meta.append((key, shape))
+        for shape, args, modes in (xmon if r["arity"] == 1 else xdy):
+            if not usable(slow.get(r["fn"]), args):
+                dropped[key] += 1
+                continue
+            items.append((r["fn"], args, modes, exempt.get(key, [])))
+            meta.append((key, "x:" + shape))
     t0 = time.time()
     res = V.pmap(run_case, items, timeout=env.budget(5, 8), hard=env.budget(14, 22))
     V.log(f"[C08] oracle: {len(items)} cases in {time.time() - t0:.1f}s")
@@ -570,7 +632,8 @@ def oracle(env, gd, mon, dy):
         if val["s"] == "ok":
             c["ok"] += 1
             keys.append(f"{key}|{json.dumps(args, sort_keys=True)}|{''.join(modes)}")
-            passed.append((key, shape, args, modes, val["got"], val["leaves"]))
+            if not shape.startswith("x:"):          # oracle-only cases stay out of the model ties
+                passed.append((key, shape, args, modes, val["got"], val["leaves"]))
             continue
         c["fail"] += 1
         bargs, bmodes = val["blame"]
